@@ -259,8 +259,12 @@ class MaskCombinator(Generic[R], GenerativeFunction[Mask[R]]):
             MaskTrace.build(self, premasked_trace, post_check),
             final_weight,
             Mask.build(retdiff, check_diff),
+            # The backward constraint holds the previous values of the choices
+            # that were visible *before* the move: mask it with the old flag. (With
+            # the new flag, an update that switches the mask off returned an empty
+            # backward constraint and could not be undone.)
             Update(
-                inner_chm.mask(post_check),
+                inner_chm.mask(pre_check),
             ),
         )
 
